@@ -2034,4 +2034,175 @@ theorem firstCut_spec : ∀ (obs : List Obs) (p : List (Nat × Item)) (a : List 
       obtain ⟨pre, id, S, T, post, e, hu, hv⟩ := ih _ _ _ _ h
       exact ⟨_ :: pre, id, S, T, post, by rw [e]; rfl, by simpa [entriesOf] using hu, by simpa [procsOf] using hv⟩
 
+/-! ## who delivered what the consumer takes -/
+
+theorem Quiet.procsOf_nil {o : List Obs} (h : Quiet o) : procsOf o = [] := by
+  induction o with
+  | nil => rfl
+  | cons y r ih =>
+    have hy := h y List.mem_cons_self
+    cases y with
+    | proc a b => exact absurd rfl (hy.2.1 a b)
+    | aligned _ _ | busy _ | handler _ _ _ | fired _ _ | reg _ _ | reject _ _ _ | snap _ _ _ | ack _
+    | released _ | ackfail _ | completed _ | stopped | redeployed _ =>
+      simpa [procsOf] using ih h.tail
+
+/-- the consumer takes an item only in a `go` of its sender -/
+theorem step_procs (s : St) (a : Act) : ∀ x ∈ procsOf (step s a).2, a = Act.go x.1 := by
+  unfold step
+  split
+  · intro x hx; cases hx
+  · cases a with
+    | align sr it =>
+      simp only [stepLive]
+      split
+      · split <;> (intro x hx; simp [procsOf] at hx)
+      · intro x hx; cases hx
+    | go sr =>
+      by_cases hsr : sr < s.k + s.z
+      · cases hs : s.slots sr with
+        | none => rw [stepLive_go_noop (Or.inr (by simp [hs]))]; intro x hx; cases hx
+        | some v =>
+          obtain ⟨it, b⟩ := v
+          cases b with
+          | false => rw [stepLive_go_noop (Or.inr (by simp [hs]))]; intro x hx; cases hx
+          | true =>
+            rw [stepLive_go_run hsr hs]
+            intro x hx
+            simp only [procsOf, List.mem_cons] at hx
+            rcases hx with rfl | hx
+            · rfl
+            · rw [((process_slots_quiet s sr it).1).procsOf_nil] at hx
+              cases hx
+      · rw [stepLive_go_noop (Or.inl hsr)]; intro x hx; cases hx
+    | tick =>
+      have hx := timeout_ext s s.lastSet
+      intro x hxm
+      simp only [stepLive, hx.onlyH.procsOf] at hxm
+      cases hxm
+    | stale =>
+      have hx := timeout_ext s s.prevSet
+      intro x hxm
+      simp only [stepLive, hx.onlyH.procsOf] at hxm
+      cases hxm
+    | armFail => intro x hx; cases hx
+    | armDbFail => intro x hx; cases hx
+    | cancel sr => intro x hx; cases hx
+    | redeploy => intro x hx; simp [stepLive, redeploy, procsOf] at hx
+
+theorem runFrom_procs : ∀ (as : List Act) (s : St) (acc : List Obs),
+    ∀ x ∈ procsOf (runFrom s acc as).2, x ∈ procsOf acc ∨ Act.go x.1 ∈ as := by
+  intro as
+  induction as with
+  | nil => intro s acc x hx; exact Or.inl hx
+  | cons a r ih =>
+    intro s acc x hx
+    simp only [runFrom] at hx
+    rcases ih _ _ x hx with h | h
+    · rw [procsOf_append] at h
+      rcases List.mem_append.mp h with h | h
+      · exact Or.inl h
+      · exact Or.inr (by rw [← step_procs s a x h]; exact List.mem_cons_self)
+    · exact Or.inr (List.mem_cons_of_mem _ h)
+
+/-- trace checker (as data): every item the consumer takes was handed in by a call that started in this trace -/
+def deliveredHere : List Nat → List Obs → Bool
+  | _, [] => true
+  | seen, .aligned sr _ :: r => deliveredHere (sr :: seen) r
+  | seen, .proc sr _ :: r => seen.contains sr && deliveredHere seen r
+  | seen, .busy _ :: r => deliveredHere seen r
+  | seen, .handler _ _ _ :: r => deliveredHere seen r
+  | seen, .fired _ _ :: r => deliveredHere seen r
+  | seen, .reg _ _ :: r => deliveredHere seen r
+  | seen, .reject _ _ _ :: r => deliveredHere seen r
+  | seen, .snap _ _ _ :: r => deliveredHere seen r
+  | seen, .ack _ :: r => deliveredHere seen r
+  | seen, .released _ :: r => deliveredHere seen r
+  | seen, .ackfail _ :: r => deliveredHere seen r
+  | seen, .completed _ :: r => deliveredHere seen r
+  | seen, .stopped :: r => deliveredHere seen r
+  | seen, .redeployed _ :: r => deliveredHere seen r
+
+theorem deliveredHere_false : ∀ (obs : List Obs) (seen : List Nat), deliveredHere seen obs = false →
+    ∃ pre sr it post, obs = pre ++ Obs.proc sr it :: post ∧ sr ∉ seen ∧ ∀ b, Obs.aligned sr b ∉ pre := by
+  intro obs
+  induction obs with
+  | nil => intro seen h; simp [deliveredHere] at h
+  | cons x r ih =>
+    intro seen h
+    have lift : ∀ (seen' : List Nat), (∀ y, y ∈ seen → y ∈ seen') → (∀ sr b, x = Obs.aligned sr b → sr ∈ seen') →
+        deliveredHere seen' r = false →
+        ∃ pre sr it post, x :: r = pre ++ Obs.proc sr it :: post ∧ sr ∉ seen ∧ ∀ b, Obs.aligned sr b ∉ pre := by
+      intro seen' hsub hal hf
+      obtain ⟨pre, sr, it, post, e, hn, hna⟩ := ih seen' hf
+      refine ⟨x :: pre, sr, it, post, by rw [e]; rfl, fun hin => hn (hsub sr hin), ?_⟩
+      intro b hin
+      rcases List.mem_cons.mp hin with heq | hin
+      · exact hn (hal sr b heq.symm)
+      · exact hna b hin
+    cases x with
+    | aligned sr b =>
+      simp only [deliveredHere] at h
+      exact lift (sr :: seen) (fun y hy => List.mem_cons_of_mem _ hy)
+        (by intro sr' b' e; cases e; exact List.mem_cons_self) h
+    | proc sr it =>
+      simp only [deliveredHere, Bool.and_eq_false_iff] at h
+      rcases h with h | h
+      · exact ⟨[], sr, it, r, rfl, by simpa using h, by intro b hin; cases hin⟩
+      · exact lift seen (fun y hy => hy) (by intro _ _ e; cases e) h
+    | busy _ | handler _ _ _ | fired _ _ | reg _ _ | reject _ _ _ | snap _ _ _ | ack _ | released _ | ackfail _
+    | completed _ | stopped | redeployed _ =>
+      simp only [deliveredHere] at h
+      exact lift seen (fun y hy => hy) (by intro _ _ e; cases e) h
+
+/-! ## what a redeploy lets through -/
+
+def isPassed (s : St) (i : Nat) : Bool :=
+  match s.slots i with
+  | some (_, true) => true
+  | _ => false
+
+/-- in the epoch started by a redeploy the consumer takes an item of sender `sr` only after a call of `sr` that
+started in this epoch — or `sr`'s call was already past alignment when the redeploy happened -/
+theorem epoch_delivered (s : St) (hlive : s.stopped = false) (as : List Act) (pre' post' : List Obs) (sr : Nat)
+    (it : Item) (hsr : sr < s.k + s.z)
+    (h : (runFrom (step s Act.redeploy).1 [] as).2 = pre' ++ Obs.proc sr it :: post') :
+    (∃ b, Obs.aligned sr b ∈ pre') ∨ ∃ it0, s.slots sr = some (it0, true) := by
+  by_cases hp : isPassed s sr = true
+  · right
+    unfold isPassed at hp
+    cases hs : s.slots sr with
+    | none => simp [hs] at hp
+    | some v =>
+      obtain ⟨it0, b⟩ := v
+      cases b with
+      | true => exact ⟨it0, rfl⟩
+      | false => simp [hs] at hp
+  · left
+    have hst : step s Act.redeploy = redeploy s := by
+      unfold step
+      rw [if_neg (by simp [hlive])]
+      rfl
+    rw [hst] at h
+    let c0 := (List.range (s.k + s.z)).filter fun i => !isPassed s i
+    have hnone : NoneAt (awayOf [] [Obs.redeployed c0]) (redeploy s).1 := by
+      intro x hx
+      simp only [awayOf, List.append_nil, c0, List.mem_filter] at hx
+      have hnp := hx.2
+      simp only [redeploy]
+      unfold isPassed at hnp
+      cases hs : s.slots x with
+      | none => rfl
+      | some v =>
+        obtain ⟨it0, b⟩ := v
+        cases b with
+        | false => rfl
+        | true => simp [hs] at hnp
+    obtain ⟨_, hok⟩ := runFrom_away as (redeploy s).1 [Obs.redeployed c0] hnone (by simp [awayOK])
+    rw [runFrom_acc, h] at hok
+    simp only [List.cons_append, List.nil_append, awayOK] at hok
+    refine awayOK_new_call pre' _ post' ?_ hok
+    simp only [List.append_nil, c0, List.mem_filter, List.mem_range]
+    exact ⟨hsr, by simpa using hp⟩
+
 end Rxn.Align
